@@ -166,6 +166,12 @@ fn main() {
         let cfg = Cfg { bs, lpc: None, ..Cfg::default() };
         run(&mut out, &mut st, &mut rng, &cfg, "walk", bs as usize * 3 + 1, Writer::Samples);
     }
+    // coded-number boundaries: enough frames that the frame number crosses the 1/2- and 2/3-byte
+    // (thorough: 3/4-byte) forms of the UTF-8-style coding (127|128, 2047|2048, 65535|65536)
+    for nframes in [130usize, 2050, if thorough { 65540 } else { 300 }] {
+        let cfg = Cfg { bs: 16, lpc: None, ..Cfg::default() };
+        run(&mut out, &mut st, &mut rng, &cfg, "small", 16 * nframes - 3, Writer::Samples);
+    }
     for len in 1..=12usize {
         for rep in 0..scale(if thorough { 200 } else { 30 }) {
             let kind = ["small", "poly", "walk", "min_adjacent"][rep % 4];
@@ -241,6 +247,33 @@ fn main() {
             }
         }
         if st.cases < st.max_cases + 60 && bytes.len() < 2500 && !bytes.is_empty() && written.iter().map(|f| f.samples.len()).sum::<usize>() <= MODEL_MAX_SAMPLES { st.cases += 1; out.case(dec_subset_case(&bytes, &[("src", esc("stream_writer"))])); }
+    }
+
+    // the same boundaries through FlacStreamWriter (one frame per write)
+    for nframes in [130usize, 2050, if thorough { 65540 } else { 300 }] {
+        let mut cur = Cursor::new(Vec::new());
+        let mut sw = FlacStreamWriter::new(&mut cur, Cfg::default().options().unwrap());
+        let mut written: Vec<Vec<i32>> = vec![];
+        for _ in 0..nframes {
+            let n = rng.range(1, 3) as usize;
+            let pcm = gen_pcm_ext(&mut rng, "small", 1, 16, n);
+            if let Ok(Ok(())) = catch(|| sw.write(44100, 1, 16, &pcm)) { written.push(pcm); } else { break; }
+        }
+        drop(sw);
+        let bytes = cur.into_inner();
+        let mut at = 0usize;
+        for (k, pcm) in written.iter().enumerate() {
+            stream_frames += 1;
+            let lo = at.saturating_sub(0);
+            match shared::refdec::frame(&bytes[at..], None) {
+                Ok(rf) => {
+                    let got: Vec<i32> = rf.chans[0].iter().map(|x| *x as i32).collect();
+                    if &got != pcm || rf.number != k as u64 || rf.variable { out.viol("stream-frame-number", &format!("raw frame {} of a {}-frame stream decodes as number {} (variable={}) / other samples", k, nframes, rf.number, rf.variable), &[("bytes", esc(&hex(&bytes[lo..(at + rf.len).min(bytes.len())]))), ("frame_index", k.to_string())]); break; }
+                    at += rf.len;
+                }
+                Err(e) => { out.viol("stream-frame-independent-decoder-rejects", &format!("independent decoder rejects raw frame {} of a {}-frame stream: {}", k, nframes, e), &[("bytes", esc(&hex(&bytes[at..(at + 64).min(bytes.len())]))), ("frame_index", k.to_string())]); break; }
+            }
+        }
     }
 
     let m = |m: &BTreeMap<String, usize>| format!("{{{}}}", m.iter().map(|(k, v)| format!("{}:{}", esc(k), v)).collect::<Vec<_>>().join(","));
